@@ -1,30 +1,69 @@
 (* C12 — printed RREL expressions re-parse to equivalent expressions. *)
-From TxV Require Import Core.Base Model.RrelSyntax Proofs.RrelSyntaxProofs.
+From TxV Require Import Core.Base Model.Rx Model.RrelSyntaxLib Gen.SrcRrelSyntax Model.RrelSyntax Model.RrelSyntaxText.
+From TxV Require Import Proofs.RrelSyntaxProofs Proofs.RrelSyntaxPrintProofs Proofs.RrelSyntaxLexProofs Proofs.RrelSyntaxTextProofs.
 
-(* The full statement, at the level of characters (print = render of the printed tokens,
-   parse = lexer followed by the PEG-ordered token parser).  [lexable e] would ask that
-   names are identifiers, dots counts are positive, flags are over {m,p} and fixed names
-   contain at most one kind of quote and do not end in a backslash. *)
-Definition C12_roundtrip_full_statement (lexable : expr -> Prop) : Prop :=
-  forall e, wf_expr e -> lexable e -> parse (print e) = Some e.
-
-(* Proved part: for every well-formed expression tree (any depth, any width, any names and
-   flags), the PEG-ordered parser applied to the printed token sequence returns the tree
-   itself — same structure and same flags.  Missing for the full statement: the lemma
-   [lex (render (t_expr e)) = Some (t_expr e)] for lexable e (token boundaries are
-   recovered by the lexer); it is exercised by the correspondence check and by the
-   computed examples below, not proved. *)
-Theorem C12_roundtrip_partial : forall e, wf_expr e -> parse_toks (t_expr e) = Some e.
-Proof. exact parse_toks_print. Qed.
-Print Assumptions C12_roundtrip_partial.
+(* The full statement, at the level of characters.
+     print_src   str(expr): every node printed by the __repr__ body of its class as translated
+                 from textx/scoping/rrel.py (Gen/SrcRrelSyntax.v);
+     parse_text  the terminals of the grammar (the regexes translated from the source, matched
+                 with the backtracking semantics of Model/Rx.v, after whitespace skipping)
+                 followed by the PEG-ordered parser;
+     wf_expr     the tree is one the constructors build (dots only at the head of a path, a fixed
+                 name only on a non-consuming navigation);
+     lexable     what the grammar can express at all: names are ASCII identifiers, dots counts
+                 positive, flags over {m,p}, every fixed name can be written as a string_value
+                 (in one of the two quotes, see C12_expressible_fixed_names).
+   For every such tree of any depth and width, every flag combination and every classification
+   [u] of the non-ASCII code points, parsing the printed text gives back the tree itself: same
+   structure, same flags. *)
+Theorem C12_roundtrip : forall u e, wf_expr e -> lexable e = true -> parse_text u (print_src e) = Some e.
+Proof. exact parse_text_print. Qed.
+Print Assumptions C12_roundtrip.
 
 (* hence any evaluation of the re-parsed expression equals the evaluation of the original *)
-Theorem C12_same_evaluation : forall (A : Type) (eval : expr -> A) e, wf_expr e ->
-  option_map eval (parse_toks (t_expr e)) = Some (eval e).
-Proof. intros A eval e H. rewrite (parse_toks_print e H). reflexivity. Qed.
+Theorem C12_same_evaluation : forall (A : Type) (eval : expr -> A) u e, wf_expr e -> lexable e = true ->
+  option_map eval (parse_text u (print_src e)) = Some (eval e).
+Proof. exact same_evaluation. Qed.
 Print Assumptions C12_same_evaluation.
 
-(* non-vacuity and a character-level instance:  +mp:^packages*.'it''s'~classes,(..a,parent(X))*.b  *)
+(* the three steps the round trip is composed of *)
+(* 1. the source's __repr__ methods print the concatenated texts of the token sequence *)
+Theorem C12_repr_prints_tokens : forall e, print_src e = render (t_expr e).
+Proof. exact print_src_render. Qed.
+Print Assumptions C12_repr_prints_tokens.
+
+(* 2. the grammar's terminals recover the tokens of any sequence in which every token is well
+      formed and no identifier follows an identifier, no dots follow dots; the printer only
+      emits such sequences *)
+Theorem C12_lexer_recovers_tokens : forall u ts, toks_ok ts = true -> lex_text u (render ts) = Some ts.
+Proof. exact lex_text_render. Qed.
+Print Assumptions C12_lexer_recovers_tokens.
+
+Theorem C12_printer_never_glues : forall e, wf_expr e -> lexable e = true -> toks_ok (t_expr e) = true.
+Proof. exact toks_ok_print. Qed.
+Print Assumptions C12_printer_never_glues.
+
+(* 3. the PEG-ordered parser applied to the printed token sequence returns the tree (any names) *)
+Theorem C12_roundtrip_tokens : forall e, wf_expr e -> parse_toks (t_expr e) = Some e.
+Proof. exact parse_toks_print. Qed.
+Print Assumptions C12_roundtrip_tokens.
+
+(* the hypothesis on fixed names: [lexable] asks that a fixed name can be written as a
+   string_value in single or in double quotes (expressible); the quotes the printer chooses
+   (double quotes only if the name has an unescaped single quote) then work *)
+Theorem C12_expressible_fixed_names : forall f, expressible f = true -> str_ok (quote_for f) f = true.
+Proof. exact expressible_quote_for. Qed.
+Print Assumptions C12_expressible_fixed_names.
+
+(* ... and it cannot be dropped: "a\"~x,'b'~y parses to a well-formed tree whose first fixed name
+   ends in a backslash; no spelling of that name is independent of the text that follows, and the
+   printed text 'a\'~x,'b'~y does not parse (known finding trailing-backslash) *)
+Theorem C12_trailing_backslash_refuted : exists s e,
+  parse_text ascii_only s = Some e /\ wf_expr e /\ lexable e = false /\ parse_text ascii_only (print_src e) = None.
+Proof. exact trailing_backslash_exists. Qed.
+Print Assumptions C12_trailing_backslash_refuted.
+
+(* non-vacuity and a computed instance:  +mp:^packages*.'it''s'~classes,(..a,parent(X))*.b  *)
 Definition sample : expr :=
   {| eseq := SCons (PCons caret_elem (PCons (EStar (S1 (P1 (ENav [112] true None))))
                       (P1 (ENav [99] false (Some [105;116;39;115])))))
@@ -32,9 +71,9 @@ Definition sample : expr :=
                                             (S1 (P1 (EParent [88])))))
                               (P1 (ENav [98] true None))));
      eflags := [109;112] |}%N.
-Example C12_sample_wf : wf_expr sample.
-Proof. vm_compute. tauto. Qed.
+Example C12_sample_wf : wf_expr sample /\ lexable sample = true.
+Proof. split; [vm_compute; tauto | vm_compute; reflexivity]. Qed.
 Print Assumptions C12_sample_wf.
-Example C12_sample_chars : parse (print sample) = Some sample.
+Example C12_sample_chars : parse_text ascii_only (print_src sample) = Some sample.
 Proof. vm_compute. reflexivity. Qed.
 Print Assumptions C12_sample_chars.
